@@ -651,6 +651,8 @@ async fn check_dir(p: &Prepared, dir: &Path, what: &str, sigpart: &str, at_end: 
         };
         let sig = if which == "folder-password-missing" && kind == "create-folder" {
             format!("c13/{be}/folder-created-before-password-saved")
+        } else if which == "folder-password-missing" && kind == "delete-folder" {
+            format!("c13/{be}/folder-password-removed-before-folder-deleted")
         } else if (which == "replay-vs-memory" || which == "replay-vs-mirror") && !at_end {
             format!("c13/{be}/vault-written-before-event-appended")
         } else {
